@@ -22,17 +22,44 @@ def run(args):
     r = subprocess.run(["verus", path, "--edition", "2024", "--triggers-mode", "silent", "--output-json", "--error-format=json", "--multiple-errors", "5", "--rlimit", "50"],
                        capture_output=True, text=True, cwd=d)
     hit = False
+    errors = 0
     for l in r.stderr.splitlines():
         try:
             j = json.loads(l)
         except Exception:
             continue
         if j.get("level") == "error":
+            errors += 1
             for sp in j.get("spans", []):
                 if sp.get("line_start") == line_no + 1 and "assert(false)" in (sp.get("text", [{}])[0].get("text", "") if sp.get("text") else "assert(false)"):
                     hit = True
     os.remove(path)
-    return unit, label, "reachable" if hit else "UNREACHABLE-OR-UNDECIDED"
+    # UNREACHABLE only when the whole file verified with `assert(false)` in place; any other outcome (resource limit, another
+    # error reported first) is inconclusive and decides nothing
+    verified = errors == 0 and r.returncode == 0
+    return unit, label, "reachable" if hit else ("UNREACHABLE" if verified else "inconclusive")
+
+
+def audit_unit(u, workers=6):
+    """[(label, verdict)] for the labelled assertions spliced into the bodies of unit `u`"""
+    jobs = []
+    out = f"/tmp/audit_{u}.rs"
+    r = subprocess.run([VX, "extract", "--repo", os.environ.get("VERIF_REPO", "/repo"), "--unit", os.path.join(ROOT, "units", u + ".vrs"), "--out", out, "--log", out + ".json"], capture_output=True, text=True)
+    if r.returncode != 0:
+        return [("<extract>", "UNREACHABLE-OR-UNDECIDED")]
+    text = open(out).read()
+    for i, l in enumerate(text.split("\n")):
+        m = re.search(r"assert\(/\*\[([^\]]+)\]\*/", l)
+        if m and "ensures" not in l:
+            jobs.append((u, len(jobs), i, m.group(1), text))
+    res = []
+    with ThreadPoolExecutor(max_workers=workers) as ex:
+        for unit, label, verdict in ex.map(run, jobs):
+            res.append((label, verdict))
+    for f in (out, out + ".json"):
+        if os.path.exists(f):
+            os.remove(f)
+    return res
 
 
 def main():
